@@ -35,6 +35,20 @@ def doc_cases(ctx, bases):
         small = name not in ('full', 'scopes')
         ss = F.enumerate_sites(root, token_cap=None if small else 6)
         sites[name] = ss
+        # a fault in front of an instance_node that never resolves, inside one top-level node
+        dp = F.deferral_pairs(root, ss)
+        if quick and len(dp) > 25:
+            dp = rng.sample(dp, 25)
+        for b, a in dp:
+            cases.append({'base': name, 'faults': [b, a], 'recorded_before_deferral': True})
+            stats['deferral_pairs'] = stats.get('deferral_pairs', 0) + 1
+        # references that are not '#'+id but whose fragment is a local id (other documents, '##id', ...)
+        xs = F.extref_sites(root, rng, None if (small or not quick) else 1)
+        if quick and not small:
+            xs = [f for f in xs if not f.get('empty')] + [f for f in xs if f.get('empty')][:10]
+        for f in xs:
+            cases.append({'base': name, 'faults': [f]})
+            stats['extref'] = stats.get('extref', 0) + 1
         # references re-pointed at a name defined only in another scope: all of them, always
         for f in F.crossref_sites(root):
             cases.append({'base': name, 'faults': [f]})
